@@ -251,6 +251,8 @@ type Engine struct {
 	// explores up to k iterations of a parse loop and cuts the path off
 	// afterwards with outcome kind "cutoff").
 	MaxForks int
+	// fieldOf: the struct type a symbolic field atom ("white.Y") was made for
+	fieldOf map[string]types.Type
 	// MaxIter bounds the number of iterations of unconditional `for { }`
 	// loops (parse loops) on one path; further iterations end the path with
 	// outcome kind "cutoff".
@@ -467,6 +469,10 @@ func (e *Engine) SymVal(name string, t types.Type) Val {
 		a := &Agg{Type: t, Elems: make([]Val, u.NumFields())}
 		for i := range a.Elems {
 			a.Elems[i] = e.SymVal(name+"."+u.Field(i).Name(), u.Field(i).Type())
+			if e.fieldOf == nil {
+				e.fieldOf = map[string]types.Type{}
+			}
+			e.fieldOf[name+"."+u.Field(i).Name()] = t
 		}
 		return a
 	case *types.Array:
@@ -895,6 +901,16 @@ func (e *Engine) exec(st *State, fr *frame, b, pred *ssa.BasicBlock, idx, depth 
 						return e.stuck(st, "symbolic branch revisited (loop with a symbolic condition) "+trunc(c.Key(), 100), e.condPos(in))
 					}
 				}
+				// outside the statement's domain: a chromaticity (ciexyy.Color) with y == 0 has
+				// no XYZ value — a guard for it concerns no input the properties speak of
+				if e.outsideDomain(c) {
+					next = b.Succs[1]
+					break
+				}
+				if e.outsideDomain(c.Not()) {
+					next = b.Succs[0]
+					break
+				}
 				e.paths++
 				if e.paths > e.MaxPaths {
 					return e.stuck(st, "path budget exceeded", in.Pos())
@@ -1103,6 +1119,31 @@ func dependsOnPhiOf(b *ssa.BasicBlock, v ssa.Value, depth int) bool {
 		}
 	}
 	return false
+}
+
+// outsideDomain: c says that the y of a symbolic chromaticity (a field Y of a
+// ciexyy.Color the caller supplies) is zero.
+func (e *Engine) outsideDomain(c *BoolVal) bool {
+	if c == nil || c.Op != "==" || e.fieldOf == nil {
+		return false
+	}
+	a, okA := c.A.(*Form)
+	b, okB := c.B.(*Form)
+	if !okA || !okB {
+		return false
+	}
+	if z, isC := a.Const(); isC && z.Sign() == 0 {
+		a, b = b, a
+	}
+	if z, isC := b.Const(); !isC || z.Sign() != 0 {
+		return false
+	}
+	n, ok := a.SingleAtom()
+	if !ok || !strings.HasSuffix(n, ".Y") {
+		return false
+	}
+	t, ok := e.fieldOf[n].(*types.Named)
+	return ok && t.Obj().Pkg() != nil && t.Obj().Pkg().Path() == ModPath+"/ciexyy" && t.Obj().Name() == "Color"
 }
 
 // isLoopHeader reports whether b has a back edge (a predecessor it dominates).
